@@ -274,9 +274,34 @@ func (f *fileDecorator) link() {
 				continue
 			}
 
-			frags, next := f.findIndentedComments(i+1, [2]int{end, start})
+			from := i + 1
+			if (caseClause || commClause) && i > 0 {
+				if prev, ok := f.fragments[i-1].(*decorationFragment); ok && prev.Name == "End" {
+					if _, isStmt := prev.Node.(ast.Stmt); isStmt {
+						// the clause ends with a statement: comments on the line of that statement
+						// are about the statement, not hanging comments of the clause. They are
+						// left for the comment pass, which attaches them to the statement.
+						for from < len(f.fragments) {
+							if _, isComment := f.fragments[from].(*commentFragment); !isComment {
+								break
+							}
+							from++
+						}
+					}
+				}
+			}
+
+			frags, next := f.findIndentedComments(from, [2]int{end, start})
 			endFrags := frags[0]
 			nextFrags := frags[1]
+			if from > i+1 && len(endFrags) > 0 {
+				// the line break that ends the line of the statement (and of the comments we
+				// stepped over) is not part of the hanging comments: leave it unattached, to
+				// become the spacing after the statement in the second pass
+				if nl, ok := endFrags[0].(*newlineFragment); ok && !nl.Empty {
+					endFrags = endFrags[1:]
+				}
+			}
 			if len(endFrags) > 0 {
 				// if endFrags ends with a newline, don't attach it because it was in between the
 				// two groups, so should be left unattached so we can attach it as spacing in the
@@ -324,6 +349,9 @@ func (f *fileDecorator) link() {
 				case 1:
 					// Before the comment on the same line (search backwards and stop at any newline)
 					frags, dec, found = f.findDecoration(true, true, i, -1, false)
+					if found {
+						dec = f.lastStmtEnd(dec)
+					}
 				case 2:
 					// After the comment on the same line
 					// After the comment on line+1 (search forwards and stop at any empty line)
@@ -487,6 +515,32 @@ func (f *fileDecorator) findDecoration(stopAtNewline, stopAtEmptyLine bool, from
 		}
 	}
 	return
+}
+
+// lastStmtEnd: a case / comm clause has no closing token, so its End decoration sits directly
+// behind the End decoration of the last statement of its body. A comment on the line of that
+// statement is about the statement, not about the clause: if dec is the End of a clause and is
+// directly preceded by the End of a statement, that one is returned instead.
+func (f *fileDecorator) lastStmtEnd(dec *decorationFragment) *decorationFragment {
+	if dec.Name != "End" {
+		return dec
+	}
+	switch dec.Node.(type) {
+	case *ast.CaseClause, *ast.CommClause:
+	default:
+		return dec
+	}
+	for i, frag := range f.fragments {
+		if frag != fragment(dec) || i == 0 {
+			continue
+		}
+		if prev, ok := f.fragments[i-1].(*decorationFragment); ok && prev.Name == "End" {
+			if _, isStmt := prev.Node.(ast.Stmt); isStmt {
+				return prev
+			}
+		}
+	}
+	return dec
 }
 
 func (f *fileDecorator) findNode(from int, direction int) (node ast.Node, dec *decorationFragment, found bool) {
